@@ -210,6 +210,33 @@ def run_unit(unit_path, repo, verif, workdir, threads=8, twin=True, log=None):
     res.cmd = ' '.join(cmd)
     timeout = int(getattr(ex, 'timeout', None) or os.environ.get('VERIF_VERUS_TIMEOUT', '420'))
     out, err, timed_out, res.portfolio = run_portfolio(gen, text, cmd, timeout)
+    # Z3 instability guard: the same text verified under another crate name is the same proof.  A run that
+    # reports failures is repeated under two other names; if one of them discharges everything, that is the
+    # result (a genuine violation fails under every name).
+    if not timed_out and '"success": true' not in out and os.environ.get('VERIF_NO_RETRY') != '1' and _has_refutation(err):
+        alt = []
+        for suf in ('_r1', '_r2'):
+            path = gen[:-3] + suf + '.rs'
+            open(path, 'w').write(text)
+            c = [cmd[0], path] + cmd[2:]
+            alt.append((path, subprocess.Popen(c, stdout=open(path + '.out', 'w'), stderr=open(path + '.err', 'w'), text=True, start_new_session=True)))
+        t_end = time.time() + timeout
+        for path, pr in alt:
+            try:
+                pr.wait(timeout=max(1, t_end - time.time()))
+            except subprocess.TimeoutExpired:
+                kill_tree(pr)
+        for path, pr in alt:
+            try:
+                o2 = open(path + '.out').read()
+                if '"success": true' in o2 and json.loads(o2).get('verification-results', {}).get('success'):
+                    out, err = o2, open(path + '.err').read()
+                    res.portfolio = dict(res.portfolio or {}, retried=True, winner=os.path.basename(path), note='first run reported failures, an identical copy under another crate name verified')
+                    break
+            except Exception:
+                pass
+        else:
+            res.portfolio = dict(res.portfolio or {}, retried=True, note='failures confirmed under two more crate names')
     if log:
         open(log, 'w').write(err)
     starts = [s[0] for s in spans]
@@ -365,6 +392,13 @@ def run_unit(unit_path, repo, verif, workdir, threads=8, twin=True, log=None):
                 res.reason = 'vacuity canary: ' + res.canary['why']
     res.wall = time.time() - t0
     return res
+
+
+def _has_refutation(err):
+    for pat, k in REFUTATION:
+        if k and ('"message":"%s' % pat) in err:
+            return True
+    return False
 
 
 def run_portfolio(gen, text, cmd, timeout, grace=None):
